@@ -38,12 +38,15 @@ type a4Summary struct {
 }
 
 type a4 struct {
-	p     *Prog
-	memo  map[string]*a4Summary
-	depth int
+	p           *Prog
+	memo        map[string]*a4Summary
+	depth       int
+	closureBits map[*ssa.Function][]pc // per closure function: bits of its captured variables / bound receiver
 }
 
-func newA4(p *Prog) *a4 { return &a4{p: p, memo: map[string]*a4Summary{}} }
+func newA4(p *Prog) *a4 {
+	return &a4{p: p, memo: map[string]*a4Summary{}, closureBits: map[*ssa.Function][]pc{}}
+}
 
 func hasRefs(t types.Type) bool { return hasRefsD(t, 0) }
 func hasRefsD(t types.Type, d int) bool {
@@ -97,6 +100,13 @@ func (a *a4) inScope(f *ssa.Function) bool {
 	if f == nil || f.Blocks == nil {
 		return false
 	}
+	if strings.Contains(f.Synthetic, "bound method wrapper") {
+		for _, c := range allCalls(f) {
+			if g := c.Common().StaticCallee(); g != nil && g != f {
+				return a.inScope(g)
+			}
+		}
+	}
 	pk := f.Pkg
 	if pk == nil && f.Parent() != nil {
 		pk = f.Parent().Pkg
@@ -115,7 +125,7 @@ var a4ExternalWriters = map[string]int{
 }
 
 func (a *a4) analyse(f *ssa.Function, args []pc, chain []string) *a4Summary {
-	key := ctxKey(f, args)
+	key := ctxKey(f, append(append([]pc{}, args...), a.closureBits[f]...))
 	if s, ok := a.memo[key]; ok {
 		return s // in-progress entries yield an empty summary (recursion cut)
 	}
@@ -132,6 +142,20 @@ func (a *a4) analyse(f *ssa.Function, args []pc, chain []string) *a4Summary {
 	for i, prm := range f.Params {
 		if i < len(args) {
 			val[prm] = args[i]
+		}
+	}
+	fvContent := map[*ssa.FreeVar]pc{}
+	for i, fv := range f.FreeVars {
+		var bits pc
+		if cb := a.closureBits[f]; i < len(cb) {
+			bits = cb[i]
+		}
+		if _, isPtr := fv.Type().Underlying().(*types.Pointer); isPtr && !strings.Contains(f.Synthetic, "bound method wrapper") {
+			// captured by reference: fv is the address of the enclosing function's variable
+			fvContent[fv] = bits
+			val[fv] = pc{false, bits.P || bits.C}
+		} else {
+			val[fv] = bits
 		}
 	}
 	get := func(v ssa.Value) pc { return val[v] }
@@ -162,10 +186,19 @@ func (a *a4) analyse(f *ssa.Function, args []pc, chain []string) *a4Summary {
 			return false
 		case *ssa.Global:
 			return false
+		case *ssa.FreeVar:
+			if _, byRef := fvContent[x]; byRef {
+				return false
+			}
+			return get(x).P
 		case *ssa.FieldAddr:
-			switch x.X.(type) {
+			switch y := x.X.(type) {
 			case *ssa.Alloc, *ssa.FieldAddr, *ssa.IndexAddr:
 				return pointsCaller(x.X)
+			case *ssa.FreeVar:
+				if _, byRef := fvContent[y]; byRef {
+					return false
+				}
 			}
 			return get(x.X).P
 		case *ssa.IndexAddr:
@@ -231,6 +264,11 @@ func (a *a4) analyse(f *ssa.Function, args []pc, chain []string) *a4Summary {
 		}
 	}
 	loadFrom = func(addr ssa.Value, at ssa.Instruction) pc {
+		if fv, ok := addr.(*ssa.FreeVar); ok {
+			if bits, byRef := fvContent[fv]; byRef {
+				return bits
+			}
+		}
 		if r, path, ok := locOf(addr); ok {
 			var rel []lstore
 			for _, ls := range allocStores[r] {
@@ -368,10 +406,25 @@ func (a *a4) analyse(f *ssa.Function, args []pc, chain []string) *a4Summary {
 						set(x, get(x.X))
 					}
 				case *ssa.MakeClosure:
-					for _, bv := range x.Bindings {
+					fnc, _ := x.Fn.(*ssa.Function)
+					for i, bv := range x.Bindings {
 						g := get(bv)
+						if al, isAlloc := bv.(*ssa.Alloc); isAlloc {
+							g = loadFrom(al, x)
+						}
 						if g.P || g.C {
 							set(x, pc{false, true})
+						}
+						if fnc != nil {
+							cb := a.closureBits[fnc]
+							for len(cb) <= i {
+								cb = append(cb, pc{})
+							}
+							if n := cb[i].or(g); n != cb[i] {
+								cb[i] = n
+								changed = true
+							}
+							a.closureBits[fnc] = cb
 						}
 					}
 				case *ssa.Store:
